@@ -1086,3 +1086,87 @@ Proof.
   unfold xcomplete. rewrite m_run0, (i_act s I), A. simpl.
   rewrite (cnt_zero_nil (xpend x)); [reflexivity|]. intros j. rewrite m_pend0, J, A. reflexivity.
 Qed.
+
+(* ---- bounded work ------------------------------------------------------------------------------------- *)
+Ltac pot := unfold potential, must in *; simpl in *;
+  repeat rewrite ?sumf_app, ?sumf_cons, ?sumf_nil, ?app_length, ?rev_length in *; simpl in *;
+  repeat rewrite ?sumf_app, ?sumf_cons, ?sumf_nil, ?app_length, ?rev_length in *; simpl in *.
+
+Lemma work_step s e s' : step s e = Some s' ->
+  own_step e + potential s' + 18 * length (pushed s) <= potential s + 18 * length (pushed s').
+Proof.
+  intros H. destruct e; simpl in H; simpl own_step.
+  - destruct (nth_error (subs s) t) as [sb|] eqn:N; [|discriminate]. destruct (pc sb) eqn:P; try discriminate.
+    destruct (ptr_eqb v (head (jobs s))); [|discriminate]. inversion H; subst; clear H.
+    pose proof (sumf_set_nth ismust _ _ {| nseq := nseq sb; pc := SLoop v |} _ N) as HM.
+    assert (Hold : ismust sb = match pc sb with SMust => 1 | _ => 0 end) by reflexivity.
+    rewrite P in Hold. rewrite Hold in HM. cbn [ismust pc] in HM. pot. lia.
+  - destruct (nth_error (subs s) t) as [sb|] eqn:N; [|discriminate]. destruct (pc sb) eqn:P; try discriminate.
+    destruct (ptr_eqb v (head (jobs s))); [|discriminate]. inversion H; subst; clear H.
+    pose proof (sumf_set_nth ismust _ _ {| nseq := nseq sb; pc := SLoop v |} _ N) as HM.
+    assert (Hold : ismust sb = match pc sb with SMust => 1 | _ => 0 end) by reflexivity.
+    rewrite P in Hold. rewrite Hold in HM. cbn [ismust pc] in HM. pot. lia.
+  - destruct (nth_error (subs s) t) as [sb|] eqn:N; [|discriminate]. destruct (pc sb) as [|p|] eqn:P; try discriminate.
+    destruct (ptr_eqb p (head (jobs s)) && Nat.eqb n (nseq sb)); [|discriminate]. inversion H; subst; clear H.
+    pose proof (sumf_set_nth ismust _ _ {| nseq := S (nseq sb); pc := match p with PIdle => SMust | _ => SIdle end |} _ N) as HM.
+    assert (Hold : ismust sb = match pc sb with SMust => 1 | _ => 0 end) by reflexivity.
+    rewrite P in Hold. rewrite Hold in HM. cbn [ismust pc] in HM. pot. destruct p; cbn [ismust pc] in HM; lia.
+  - destruct (nth_error (subs s) t) as [sb|] eqn:N; [|discriminate]. destruct (pc sb) eqn:P; try discriminate.
+    inversion H; subst; clear H.
+    pose proof (sumf_set_nth ismust _ _ {| nseq := nseq sb; pc := SIdle |} _ N) as HM.
+    assert (Hold : ismust sb = match pc sb with SMust => 1 | _ => 0 end) by reflexivity.
+    rewrite P in Hold. rewrite Hold in HM. cbn [ismust pc] in HM. pot. lia.
+  - dmove H. inversion H; subst; clear H. destruct x; simpl in Hp; try discriminate. inversion Hp; subst.
+    unfold potential. simpl. rewrite Ea. pot. lia.
+  - destruct (move (from_pending ADropStart) s) as [s1|] eqn:M; [|discriminate]. inversion H; subst; clear H.
+    dmove M. inversion M; subst; clear M. destruct x; simpl in Hp; try discriminate. inversion Hp; subst.
+    unfold potential. simpl. rewrite Ea. pot. lia.
+  - destruct (ptr_eqb old (head (jobs s))); [|discriminate]. destruct (jobs s) as [|[|j l]] eqn:J; try discriminate.
+    dmove H. simpl in Ea. inversion H; subst; clear H. destruct x; simpl in Hp; try discriminate. inversion Hp; subst.
+    unfold potential. simpl. rewrite Ea, J. pot. lia.
+  - destruct (move (begin_job j) s) as [s1|] eqn:M; [|discriminate]. inversion H; subst; clear H.
+    dmove M. inversion M; subst; clear M. destruct x as [| |[|x t]| | | | |]; simpl in Hp; try discriminate.
+    destruct (job_eqb x j); [|discriminate]. inversion Hp; subst. unfold potential. simpl. rewrite Ea. pot. lia.
+  - destruct (move (end_job j) s) as [s1|] eqn:M; [|discriminate]. inversion H; subst; clear H.
+    dmove M. inversion M; subst; clear M. destruct x as [| | |x t| | | |]; simpl in Hp; try discriminate.
+    destruct (job_eqb x j); [|discriminate]. inversion Hp; subst. unfold potential. simpl. rewrite Ea. pot. lia.
+  - destruct (ptr_eqb v (head (jobs s))); [|discriminate]. dmove H. inversion H; subst; clear H.
+    destruct x as [| |[|? ?]| | | | |]; simpl in Hp; try discriminate. inversion Hp; subst.
+    unfold potential. simpl. rewrite Ea. pot. destruct v; simpl; lia.
+  - destruct (jobs s) as [|[|j l]] eqn:J; try discriminate. dmove H. simpl in Ea. inversion H; subst; clear H.
+    destruct x; simpl in Hp; try discriminate. inversion Hp; subst. unfold potential. simpl. rewrite Ea, J. pot. lia.
+  - destruct (ptr_eqb v (head (jobs s))); [|discriminate].
+    assert (H' : move (from_runcas [AResubmit]) s = Some s') by (destruct (jobs s) as [|[|? ?]]; auto; discriminate).
+    clear H. dmove H'. inversion H'; subst; clear H'. destruct x; simpl in Hp; try discriminate. inversion Hp; subst.
+    unfold potential. simpl. rewrite Ea. pot. lia.
+  - dmove H. inversion H; subst; clear H. destruct x; simpl in Hp; try discriminate. inversion Hp; subst.
+    unfold potential. simpl. rewrite Ea. pot. lia.
+  - destruct (ptr_eqb old (head (jobs s))); [|discriminate]. destruct (jobs s) as [|[|j l]] eqn:J; try discriminate.
+    destruct (move (from_dropstart (ADropBatch (j :: l))) (set_jobs Idle s)) as [s1|] eqn:M; [|discriminate].
+    inversion H; subst; clear H. dmove M. simpl in Ea. inversion M; subst; clear M.
+    destruct x; simpl in Hp; try discriminate. inversion Hp; subst. unfold potential. simpl. rewrite Ea, J. pot. lia.
+  - destruct (move (drop_job j) s) as [s1|] eqn:M; [|discriminate]. inversion H; subst; clear H.
+    dmove M. inversion M; subst; clear M. destruct x as [| | | | | | |[|x t]]; simpl in Hp; try discriminate.
+    destruct (job_eqb x j); [|discriminate]. inversion Hp; subst. unfold potential. simpl. rewrite Ea. pot. lia.
+  - dmove H. inversion H; subst; clear H. destruct x as [| | | | | | |[|? ?]]; simpl in Hp; try discriminate.
+    inversion Hp; subst. unfold potential. simpl. rewrite Ea. pot. lia.
+Qed.
+
+Lemma work_run tr : forall s s', run s tr = Some s' ->
+  own_steps tr + potential s' + 18 * length (pushed s) <= potential s + 18 * length (pushed s').
+Proof.
+  induction tr as [|e tr IH]; simpl; intros s s' H.
+  - inversion H; subst. unfold own_steps, sumf. simpl. lia.
+  - destruct (step s e) as [s1|] eqn:E; [|discriminate]. specialize (IH _ _ H).
+    pose proof (work_step _ _ _ E). unfold own_steps in *. rewrite sumf_cons. lia.
+Qed.
+
+Theorem bounded_work n tr s : run (init n) tr = Some s -> own_steps tr + potential s <= 18 * length (pushed s).
+Proof.
+  intros H. pose proof (work_run _ _ _ H) as W.
+  assert (P0 : potential (init n) = 0).
+  { unfold potential, must. simpl. unfold sumf. simpl.
+    assert (E : list_sum (map ismust (repeat {| nseq := 0; pc := SIdle |} n)) = 0) by (clear; induction n; simpl; auto).
+    rewrite E. reflexivity. }
+  rewrite P0 in W. simpl in W. lia.
+Qed.
